@@ -38,6 +38,44 @@ Proof.
     [apply pn0|apply pn2|apply pn4|apply pn6|apply pn8|apply pn10].
 Qed.
 
+(* P_n for either parity, in terms of mu (x = mu^2) *)
+Ltac pnmu_tac cs :=
+  intros mu; unfold P_n_mu;
+  match goal with |- context [Z.to_nat ?n] => let e := eval vm_compute in (Z.to_nat n) in change (Z.to_nat n) with e end;
+  match goal with |- context [pn_terms ?n] => replace (pn_terms n) with cs by (vm_compute; reflexivity) end;
+  cbn [map fold_left fst snd qpow legendre legendre_pair Z.of_nat Pos.of_succ_nat Pos.succ];
+  unfold inject_Z; field.
+
+Lemma pnmu1 : forall mu : Q, (P_n_mu mu 1 == legendre 1 mu)%Q.
+Proof. pnmu_tac [(2, 1%nat)]. Qed.
+Lemma pnmu3 : forall mu : Q, (P_n_mu mu 3 == legendre 3 mu)%Q.
+Proof. pnmu_tac [(20, 3%nat); (-12, 1%nat)]. Qed.
+Lemma pnmu5 : forall mu : Q, (P_n_mu mu 5 == legendre 5 mu)%Q.
+Proof. pnmu_tac [(252, 5%nat); (-280, 3%nat); (60, 1%nat)]. Qed.
+Lemma pnmu7 : forall mu : Q, (P_n_mu mu 7 == legendre 7 mu)%Q.
+Proof. pnmu_tac [(3432, 7%nat); (-5544, 5%nat); (2520, 3%nat); (-280, 1%nat)]. Qed.
+Lemma pnmu9 : forall mu : Q, (P_n_mu mu 9 == legendre 9 mu)%Q.
+Proof. pnmu_tac [(48620, 9%nat); (-102960, 7%nat); (72072, 5%nat); (-18480, 3%nat); (1260, 1%nat)]. Qed.
+
+Lemma P_n_odd_is_legendre_lemma : forall l, In l [1; 3; 5; 7; 9] ->
+  forall mu : Q, (P_n_mu mu l == legendre (Z.to_nat l) mu)%Q.
+Proof.
+  intros l Hl mu. cbn [In] in Hl.
+  destruct Hl as [<-|[<-|[<-|[<-|[<-|[]]]]]]; [apply pnmu1|apply pnmu3|apply pnmu5|apply pnmu7|apply pnmu9].
+Qed.
+
+(* the two transcriptions of the loop agree on even orders *)
+Lemma P_n_mu_even_lemma : forall l, In l [0; 2; 4; 6; 8; 10] ->
+  forall mu : Q, (P_n_mu mu l == P_n_even (mu * mu) l)%Q.
+Proof.
+  intros l Hl mu. cbn [In] in Hl.
+  destruct Hl as [<-|[<-|[<-|[<-|[<-|[<-|[]]]]]]]; unfold P_n_mu, P_n_even;
+    match goal with |- context [pn_terms ?n] => let e := eval vm_compute in (pn_terms n) in change (pn_terms n) with e end;
+    match goal with |- context [pn_coeffs ?n] => let e := eval vm_compute in (pn_coeffs n) in change (pn_coeffs n) with e end;
+    match goal with |- context [Z.to_nat ?n] => let e := eval vm_compute in (Z.to_nat n) in change (Z.to_nat n) with e end;
+    cbn [map fold_left fst snd qpow]; unfold inject_Z; ring.
+Qed.
+
 (* ---- l = 0 pole --------------------------------------------------------------------------------------------- *)
 Lemma sum_n_nonneg m : forall lo f, (forall i, lo <= i < lo + Z.of_nat m -> 0 <= f i) -> 0 <= sum_n m lo f.
 Proof.
